@@ -184,3 +184,13 @@ META["C12"] = dict(
     assumptions=["data inside the boundaries; positive weights; positive bandwidth (or 0 on unweighted samples with non-zero spread)"],
     extra_modules=[],
 )
+
+META["C04"] = dict(
+    level_text="Theorems (Lean): the model statistics are the textbook expressions (pooled, Welch-Satterthwaite, paired, one-sample) with the library's error checks in the library's order; swapping the samples negates the numerator and keeps the denominator and DoF; shifting and positive scaling leave T^2, sign and DoF unchanged. Correspondence: N1, N2, sign(T), T^2, DoF and the error kind of the real code against the exact rational model (tolerance scaled by the cancellation factors of the data); P against the closed-form Student-t CDF at integer DoF (interval enclosure built from proved-sound atan/sqrt/pi) and, for Welch's non-integer DoF, against the library's own t CDF at (T,DoF) (wiring); MeanCI: mean, symmetry and t-content of the interval equal to c.",
+    level_note="Trusted: Lean kernel, harness sampling, MV.I enclosures and the closed-form t CDF at integer DoF (MV.Special.tCDF, numerically cross-checked; its derivation is textbook and not formalised). For Welch's test the accuracy of TDist.CDF at non-integer DoF is covered only by C05/C08's laws (partial).",
+    technique="Lean 4 proofs of the statistic identities + exact rational differential correspondence with closed-form t reference",
+    rule="tt pooled|welch|paired|one x1 x2 mu0 alt, meanci xs c. 2..40 values per sample (small sizes 1/5; sizes 0/1 1/25 for the error cases), centres {0,1,100,-5000,1e5,999990}, spreads 2^-4..2^4, unequal variances, zero-variance samples, mismatched paired lengths, mu0 near and far, all three alternatives; swapped and shifted/scaled variants; a short paired test right after a long one; MeanCI at c in {0,1,-0.5,1.5,.5,.9,.95,.99,1e-6,1-1e-9,random}. non-trivial = every case not skipped",
+    exhaustive_part="",
+    trusted_base=COMMON_TB + ["closed-form Student-t CDF at integer DoF (MV.Special.tCDF) as P reference"],
+    assumptions=["|x|<=1e6, relative spread >= 1e-6 (cases whose forward-error factor exceeds 1e-6 are skipped and counted)"],
+)
